@@ -25,7 +25,7 @@ struct Val {
 };
 struct Token { Token() { liveClosures++; } ~Token() { liveClosures--; } };
 
-struct Inner { char kind; int arg; };  // 't' thenI ctx | 'd' destroyCtx c
+struct Inner { char kind; int arg; };  // 't' thenI ctx | 'd' destroyCtx c | 'x' drop every handle
 
 template<typename T> struct Env {
     std::vector<QXmppPromise<T>> promises;
@@ -82,7 +82,8 @@ template<typename T> struct Env {
             oracleRan(k, eff, val, reentrant);
             bool saved = inBody; inBody = true;
             for (auto &i : body) {
-                if (i.kind == 't') attach(i.arg, {}, true);
+                if (i.kind == 't') { if (refs() > 0) attach(i.arg, {}, true); }
+                else if (i.kind == 'x') { tasks.clear(); promises.clear(); }   // the owner deletes itself from inside its continuation
                 else destroy(i.arg);
             }
             inBody = saved;
@@ -107,12 +108,13 @@ template<typename T> struct Env {
 
     std::string apply(const std::string &op) {
         evs.clear();
+        const size_t refsBefore = refs();
         history += op + ";";
         std::istringstream is(op); std::string w; is >> w;
         if (w == "then") {
             int c; std::string b; is >> c >> b;
             std::vector<Inner> body;
-            if (b != "-") { std::istringstream bs(b); std::string item; while (std::getline(bs, item, ',')) body.push_back({item[0], atoi(item.c_str() + 1)}); }
+            if (b != "-") { std::istringstream bs(b); std::string item; while (std::getline(bs, item, ',')) body.push_back({item[0], item.size() > 1 ? atoi(item.c_str() + 1) : 0}); }
             if (refs() > 0) attach(c, body, false);
         } else if (w == "finish") {
             int v; is >> v;
@@ -137,14 +139,13 @@ template<typename T> struct Env {
             }
         } else if (w == "drop") {
             if (refs() > 0) {
-                long v0 = liveValues, c0 = liveClosures;
-                bool last = refs() == 1;
                 if (!tasks.empty()) tasks.pop_back(); else promises.pop_back();
-                if (last) {
-                    evs.push_back(std::string("released ") + (v0 - liveValues > 0 ? "1" : "0") + " " + (c0 - liveClosures > 0 ? "1" : "0"));
-                    if (liveValues != 0 || liveClosures != 0) oracleFail("C13:not-released", history); else oraclePass()++;
-                }
             }
+        }
+        if (refsBefore > 0 && refs() == 0) {
+            // last handle gone during this step: value and continuation must be released by now
+            evs.push_back("released");
+            if (liveValues != 0 || liveClosures != 0) oracleFail("C13:not-released", history); else oraclePass()++;
         }
         std::string e;
         for (size_t i = 0; i < evs.size(); i++) { if (i) e += ";"; e += evs[i]; }
@@ -185,9 +186,9 @@ static void enumerate(const std::vector<std::string> &alpha, int depth, std::vec
 int main(int argc, char **argv) {
     QCoreApplication app(argc, argv);
     Args a = parseArgs(argc, argv);
-    std::vector<std::string> small = { "then 1 -", "then 2 t1", "then 0 -", "then 1 t2,d1", "then 2 d2", "finish 7",
+    std::vector<std::string> small = { "then 1 -", "then 2 t1", "then 0 -", "then 1 t2,d1", "then 2 d2", "then 1 x", "then 2 x,t1", "finish 7",
                                        "destroy 1", "destroy 2", "copy", "drop" };
-    std::vector<std::string> bodies = { "-", "t1", "t2", "t0", "d1", "d2", "t1,d1", "d1,t1", "t2,t1", "d2,t2,t1" };
+    std::vector<std::string> bodies = { "-", "t1", "t2", "t0", "d1", "d2", "t1,d1", "d1,t1", "t2,t1", "d2,t2,t1", "x", "x,t1", "t1,x", "d1,x" };
     std::vector<std::string> full;
     for (int c = 0; c < 3; c++) for (auto &b : bodies) full.push_back("then " + std::to_string(c) + " " + b);
     for (auto s : { "finish 7", "finish 0", "destroy 1", "destroy 2", "copy", "drop" }) full.push_back(s);
@@ -195,6 +196,8 @@ int main(int argc, char **argv) {
     std::vector<std::string> cur;
     // corpus first: minimized past findings
     runAllKinds({ "finish 7", "then 1 t1" });
+    runAllKinds({ "then 1 x", "finish 7" });            // owner deletes itself inside its continuation (use after free before the fix)
+    runAllKinds({ "copy", "finish 7", "then 1 x,t1" });
     runAllKinds({ "then 1 -", "destroy 1", "finish 7", "drop" });
     runAllKinds({ "then 1 -", "then 2 t2", "finish 3", "then 1 -", "then 1 -" });
     int depth = thorough ? 6 : 4;
